@@ -296,6 +296,11 @@ def validate_dl(run, driver, join_cases, run_cases, label):
     return events
 
 
+# queries whose head instances coincide with facts already in the world (e(x,y) <- e(x,y), ...)
+IDENTITY_QUERIES = [{"h": [p] + v, "b": [[p] + v], "g": []} for p, v in ((0, [-1, -2]), (1, [-1, -2]), (2, [-1]), (3, [-1]), (4, [-1]))] + \
+                   [{"h": [1, -1, -3], "b": [[0, -1, -2], [1, -2, -3]], "g": []}]
+
+
 @check("C05")
 def c05(run):
     thorough = run.tier == "thorough"
@@ -324,7 +329,7 @@ def c05(run):
     runs = []
     for i, c in enumerate(r2.cases):
         runs.append({"id": "r%d" % i, "emb": emb_of(run, i), "facts": c["facts"], "rules": c["rules"],
-                     "mf": c["mf"], "mi": c["mi"], "queries": []})
+                     "mf": c["mf"], "mi": c["mi"], "queries": IDENTITY_QUERIES})
         if c["rules"] and c["facts"]:
             run.count(("run", json.dumps(c["facts"]), json.dumps(c["rules"]), c["mf"], c["mi"]))
         else:
@@ -555,6 +560,7 @@ def c04(run):
     run.rule = AUTHZ_RULE + " C04: verdict class of T and of T+B must be in RefVerdict (declarative decision procedure)."
     run.assumptions = AUTHZ_ASSUME
     authz_check(run, "C04", authz_cfgs(run, ["NoReset"], quick=("AuthzMC_quick",)))
+    authz_l3(run, core.build_driver(run.work))
 
 
 @check("C02")
@@ -562,6 +568,7 @@ def c02(run):
     run.rule = AUTHZ_RULE + " C02: Authorize(T+B) = ok implies Authorize(T) = ok, and both equal the specification (theorem Monotone)."
     run.assumptions = AUTHZ_ASSUME
     authz_check(run, "C02", authz_cfgs(run, ["PolAfter"]))
+    authz_l3(run, core.build_driver(run.work))
 
 
 @check("C03")
@@ -571,6 +578,7 @@ def c03(run):
                              "contain the authority closure (Visible).")
     run.assumptions = AUTHZ_ASSUME
     authz_check(run, "C03", authz_cfgs(run, ["NoClone"]))
+    authz_l3(run, core.build_driver(run.work))
 
 
 @check("C12")
@@ -1622,3 +1630,55 @@ def replay_grammar(run, body):
 
 
 REPLAYERS["grammar"] = replay_grammar
+
+
+# =============================================================== L3 for Authz: random first-order programs, validated by TLC
+
+def authz_l3(run, driver, label="L3 random program"):
+    cases = gen_cases(run, driver, "authz")
+    res = core.run_driver(driver, "authz", cases, per_case_timeout=120)
+    events, src = [], []
+    for c in cases:
+        o = res[c["id"]]
+        if o.get("crash") or "obs" not in o:
+            if "build_error" in o:
+                continue
+            run.report({"what": "crash"}, c, "authzgen", "%s: process died / harness error: %s" % (label, json.dumps(o)[:300]))
+            continue
+        ob = o["obs"]
+        tok = c["toks"][0]
+        events.append({"tok": {"auth": tok["auth"], "blocks": tok["blocks"]}, "az": c["script"][1]["az"],
+                       "v": ob[2].get("v"), "world": ob[3].get("rows") or []})
+        src.append((c, o))
+        run.count((c["id"], ob[2].get("v")) if tok["blocks"] and c["script"][1]["az"]["p"] else None)
+    bad = validate_traces(run, "TraceAuthz", "TraceAuthz", events)
+    for b in bad[:20]:
+        c, o = src[b]
+        tok = c["toks"][0]
+        inst = {"auth": tok["auth"], "blocks": tok["blocks"], "az": c["script"][1]["az"]}
+        rc = confirm_case(driver, "authz", c, o, ("obs",))
+        run.report({"what": "verdict/closure", "instance": inst_text(inst)[:200]}, c, "authzgen",
+                   "%s (token via %s): %s -> Authorize = %s, authority-level facts = %s; rejected by TraceAuthz (RefVerdict / Closure / Monotone)" % (
+                       label, tok["via"], inst_text(inst), o["obs"][2].get("v"), rows(o["obs"][3].get("rows"))), (lambda rc=rc: rc is not None))
+    if src:
+        c = src[len(src) // 2][0]
+        run.sample({"random_program": inst_text({"auth": c["toks"][0]["auth"], "blocks": c["toks"][0]["blocks"], "az": c["script"][1]["az"]})[:600],
+                    "observed": src[len(src) // 2][1]["obs"][2].get("v")})
+
+
+def replay_authzgen(run, body):
+    driver = core.build_driver(run.work)
+    c = dict(body["case"])
+    o = core.run_driver(driver, "authz", [c], nproc=1)[str(c["id"])]
+    run.count("replay")
+    run.count("replay2")
+    if o.get("crash") or "obs" not in o:
+        run.report(body["sig"], c, "authzgen", "replayed: " + json.dumps(o)[:300])
+        return
+    tok = c["toks"][0]
+    ev = [{"tok": {"auth": tok["auth"], "blocks": tok["blocks"]}, "az": c["script"][1]["az"], "v": o["obs"][2].get("v"), "world": o["obs"][3].get("rows") or []}]
+    if validate_traces(run, "TraceAuthz", "TraceAuthz", ev, chunks=1):
+        run.report(body["sig"], c, "authzgen", "replayed: TraceAuthz rejects the observation")
+
+
+REPLAYERS["authzgen"] = replay_authzgen
